@@ -190,8 +190,19 @@ func (vm *VM) newMap() *Map {
 func (vm *VM) keyEq(a, b Value) bool {
 	switch x := a.(type) {
 	case string:
-		y, ok := b.(string)
-		return ok && x == y
+		if y, ok := b.(string); ok {
+			return x == y
+		}
+		if _, ok := b.(*SymStr); ok {
+			return vm.symKeyEq(a, b)
+		}
+		return false
+	case *SymStr:
+		switch b.(type) {
+		case string, *SymStr:
+			return vm.symKeyEq(a, b)
+		}
+		return false
 	case int64:
 		y, ok := b.(int64)
 		return ok && x == y
@@ -228,10 +239,21 @@ func (vm *VM) keyEq(a, b Value) bool {
 
 func (vm *VM) concreteKey(k Value) Value {
 	switch x := k.(type) {
-	case *smt.Term, *SymStr:
+	case *smt.Term:
 		vmErr("symbolic map key %s", describe(x))
+	case *Opaque:
+		vmErr("opaque string used as a map key (%s)", x.What)
 	}
 	return k
+}
+
+// symKeyEq decides equality of string keys when one side is symbolic (forks).
+func (vm *VM) symKeyEq(a, b Value) bool {
+	c, ok := strEq(a, b)
+	if !ok {
+		vmErr("cannot compare map keys %s and %s", describe(a), describe(b))
+	}
+	return vm.Decide(c)
 }
 
 func (vm *VM) mapLookup(m *Map, k Value) (Value, bool) {
